@@ -16,6 +16,9 @@ func decodeTypeSection(enabledFeatures api.CoreFeatures, r *bytes.Reader) ([]was
 		return nil, fmt.Errorf("get size of vector: %w", err)
 	}
 
+	if err := checkVectorSize(r, uint64(vs)); err != nil {
+		return nil, err
+	}
 	result := make([]wasm.FunctionType, vs)
 	for i := uint32(0); i < vs; i++ {
 		if err = decodeFunctionType(enabledFeatures, r, &result[i]); err != nil {
@@ -42,6 +45,9 @@ func decodeImportSection(
 	}
 
 	perModule = make(map[string][]*wasm.Import)
+	if err = checkVectorSize(r, uint64(vs)); err != nil {
+		return
+	}
 	result = make([]wasm.Import, vs)
 	for i := uint32(0); i < vs; i++ {
 		imp := &result[i]
@@ -73,6 +79,9 @@ func decodeFunctionSection(r *bytes.Reader) ([]uint32, error) {
 		return nil, fmt.Errorf("get size of vector: %w", err)
 	}
 
+	if err := checkVectorSize(r, uint64(vs)); err != nil {
+		return nil, err
+	}
 	result := make([]uint32, vs)
 	for i := uint32(0); i < vs; i++ {
 		if result[i], _, err = leb128.DecodeUint32(r); err != nil {
@@ -93,6 +102,9 @@ func decodeTableSection(r *bytes.Reader, enabledFeatures api.CoreFeatures) ([]wa
 		}
 	}
 
+	if err := checkVectorSize(r, uint64(vs)); err != nil {
+		return nil, err
+	}
 	ret := make([]wasm.Table, vs)
 	for i := range ret {
 		err = decodeTable(r, enabledFeatures, &ret[i])
@@ -129,6 +141,9 @@ func decodeGlobalSection(r *bytes.Reader, enabledFeatures api.CoreFeatures) ([]w
 		return nil, fmt.Errorf("get size of vector: %w", err)
 	}
 
+	if err := checkVectorSize(r, uint64(vs)); err != nil {
+		return nil, err
+	}
 	result := make([]wasm.Global, vs)
 	for i := uint32(0); i < vs; i++ {
 		if err = decodeGlobal(r, enabledFeatures, &result[i]); err != nil {
@@ -144,6 +159,9 @@ func decodeExportSection(r *bytes.Reader) ([]wasm.Export, map[string]*wasm.Expor
 		return nil, nil, fmt.Errorf("get size of vector: %v", sizeErr)
 	}
 
+	if err := checkVectorSize(r, uint64(vs)); err != nil {
+		return nil, nil, err
+	}
 	exportMap := make(map[string]*wasm.Export, vs)
 	exportSection := make([]wasm.Export, vs)
 	for i := wasm.Index(0); i < vs; i++ {
@@ -175,6 +193,9 @@ func decodeElementSection(r *bytes.Reader, enabledFeatures api.CoreFeatures) ([]
 		return nil, fmt.Errorf("get size of vector: %w", err)
 	}
 
+	if err := checkVectorSize(r, uint64(vs)); err != nil {
+		return nil, err
+	}
 	result := make([]wasm.ElementSegment, vs)
 	for i := uint32(0); i < vs; i++ {
 		if err = decodeElementSegment(r, enabledFeatures, &result[i]); err != nil {
@@ -191,6 +212,9 @@ func decodeCodeSection(r *bytes.Reader) ([]wasm.Code, error) {
 		return nil, fmt.Errorf("get size of vector: %w", err)
 	}
 
+	if err := checkVectorSize(r, uint64(vs)); err != nil {
+		return nil, err
+	}
 	result := make([]wasm.Code, vs)
 	for i := uint32(0); i < vs; i++ {
 		err = decodeCode(r, codeSectionStart, &result[i])
@@ -207,6 +231,9 @@ func decodeDataSection(r *bytes.Reader, enabledFeatures api.CoreFeatures) ([]was
 		return nil, fmt.Errorf("get size of vector: %w", err)
 	}
 
+	if err := checkVectorSize(r, uint64(vs)); err != nil {
+		return nil, err
+	}
 	result := make([]wasm.DataSegment, vs)
 	for i := uint32(0); i < vs; i++ {
 		if err = decodeDataSegment(r, enabledFeatures, &result[i]); err != nil {
